@@ -13,6 +13,7 @@ import (
 	"sort"
 	"strings"
 	"sync"
+	"sync/atomic"
 	"time"
 )
 
@@ -371,9 +372,29 @@ func MqttStacks() []string {
 func (w *World) Diagnose(window time.Duration) (wedged bool, report string) {
 	s1 := MqttStacks()
 	n1 := w.Now()
+	// A canary tells whether this process got processor time during the window:
+	// on a starved machine nothing moves either, and that is not a wedge.
+	var ticks atomic.Int64
+	stop := make(chan struct{})
+	go func() {
+		for {
+			select {
+			case <-stop:
+				return
+			default:
+			}
+			time.Sleep(time.Millisecond)
+			ticks.Add(1)
+			runtime.Gosched()
+		}
+	}()
 	time.Sleep(window)
+	close(stop)
 	s2 := MqttStacks()
 	n2 := w.Now()
+	if want := int64(window / (4 * time.Millisecond)); ticks.Load() < want {
+		return false, fmt.Sprintf("machine overloaded: the canary goroutine ran %d times in %v (a wedge needs at least %d)", ticks.Load(), window, want)
+	}
 	// No observable event over the window and the same call stacks at function
 	// level: blocked for good, or spinning without effect (a goroutine caught
 	// runnable at both instants inside the same functions is not progress).
